@@ -37,6 +37,15 @@ func NewIdentity(r io.Reader) *Identity {
 	return id
 }
 
+// NewIdentityFromPriv returns the X25519 public key of a private key.
+func NewIdentityFromPriv(priv []byte) []byte {
+	pub, err := curve25519.X25519(priv, curve25519.Basepoint)
+	if err != nil {
+		panic(err)
+	}
+	return pub
+}
+
 // Ephemeral is a session key pair with an Elligator 2 representative.  The
 // reference uses clean (prime-order subgroup) public keys: legal on the wire,
 // the peer only ever sees the representative.
